@@ -5,6 +5,8 @@ Every case drives the REAL coroutine of psiaudio.pipeline with one chunking of o
 object passed to the target: values, .s0, .fs, .channel, .metadata.  Sample values are turned into *recipes*
 (position in the stage's one-shot whole-signal result, computed here with ONE call of the same numpy/scipy
 primitive and compared bit-exactly), so that the integer model of Stages/Model.v can be compared with `==`."""
+import copy
+import functools
 import itertools
 import os
 import numpy as np
@@ -77,15 +79,20 @@ def _gen(case, seed):
     N = sum(case['sizes'])
     st = case['stage']
     rs = np.random.RandomState(seed % (2 ** 31))
-    rows = 2 if case['two'] else 1
+    rows = _rows(case)
     if st in ('blocked', 'discard', 'downsample', 'transform', 'mc_reference', 'rms'):
         X = np.stack([np.arange(N, dtype=float) + 1000 * r + 1 for r in range(rows)])
     elif st == 'derivative':
-        X = np.stack([np.cumsum(rs.permutation(N) + 1 + r).astype(float) + case['p']['init'] for r in range(rows)])
+        # distinct adjacent differences; the first sample is far enough from the initial state that x[0] - init is
+        # distinct from all of them (also for a non-integer initial state)
+        i0 = int(np.floor(case['p']['init']))
+        X = np.stack([np.cumsum(np.r_[i0 + N + 5 + r, rs.permutation(N)[:max(N - 1, 0)] + 1 + r]).astype(float)
+                      for r in range(rows)])[:, :N]
     elif st == 'auto_th':
         X = rs.randint(-20, 21, size=(rows, N)).astype(float)
     else:
         X = rs.randint(-50, 51, size=(rows, N)).astype(float)
+    X = X.astype(_v(case, 'dtype', 'f8'))       # integer-valued, so every dtype holds the same numbers
     return X if case['two'] else X[0]
 
 
@@ -97,8 +104,8 @@ def _data(case):
         ref = _reference(case, X)
         if not _unique(case, ref):
             continue
-        if case['stage'] == 'auto_th' and X.shape[-1] >= _n_eff_round(case['fs'], case['p']['B']) and X.size:
-            th = _ref_threshold(case, X)
+        if case['stage'] == 'auto_th' and X.shape[-1] >= _ath_B(case) and X.size:
+            th = _ref_threshold(case, X) if case['p'].get('cur') is None else float(case['p']['cur'])
             if not (np.min(np.abs(np.abs(X) - th)) >= 1e-9):
                 if np.isnan(th):
                     return X
@@ -107,12 +114,65 @@ def _data(case):
     raise RuntimeError('harness: could not draw a stream with a unique reference')
 
 
+# ---- variants: unusual-but-legal argument kinds (case['v'] = {...}; absent = the plain kinds)
+LABEL_KINDS_2D = [['a', 'b', 'c'], [0, '', False], [('x', 1), 2.5, None], None]      # strings / falsy / mixed+tuple / default
+LABEL_KINDS_1D = [None, 'mic', 0, '']
+MD_KINDS = [{'k': 1}, {}, {'a': {'b': [1, 2]}, 'z': None}, {'k': 0, '': False}]
+
+
+def _v(case, key, default=None):
+    return (case.get('v') or {}).get(key, default)
+
+
+def _rows(case):
+    return _v(case, 'nch', 2) if case['two'] else 1
+
+
+def _in_channel(case):
+    k = _v(case, 'lab', 0)
+    if case['two']:
+        lab = LABEL_KINDS_2D[k]
+        return None if lab is None else list(lab[:_rows(case)])
+    return LABEL_KINDS_1D[k]
+
+
+def _eff_channel(case):
+    """the .channel attribute the input chunks actually have"""
+    ch = _in_channel(case)
+    return [None] * _rows(case) if (ch is None and case['two']) else ch
+
+
+def _in_md(case):
+    return copy.deepcopy(MD_KINDS[_v(case, 'md', 0)])
+
+
+def _fs_obj(case):
+    """the object passed as sampling rate: float, int (when integral) or NumPy scalar"""
+    k = _v(case, 'fsk', 'float')
+    fs = case['fs']
+    if k == 'int' and fs == int(fs):
+        return int(fs)
+    if k == 'np':
+        return np.float64(fs)
+    return fs
+
+
+def _num(case, x):
+    """integer stage parameter as int / NumPy integer"""
+    k = _v(case, 'pk', 'int')
+    return np.int64(x) if k == 'np' else np.int32(x) if k == 'np32' else x
+
+
 def _wrap(case, x, lo):
+    if _v(case, 'ro'):
+        x.flags.writeable = False
     if not case['ann']:
         return x
     from psiaudio.pipeline import PipelineData
-    return PipelineData(x, fs=case['fs'], s0=case['s0'] + lo, channel=(['a', 'b'] if case['two'] else None),
-                        metadata=dict(MD))
+    s0 = case['s0'] + lo
+    if _v(case, 's0k') == 'np':
+        s0 = np.int64(s0)
+    return PipelineData(x, fs=_fs_obj(case), s0=s0, channel=copy.deepcopy(_in_channel(case)), metadata=_in_md(case))
 
 
 def _chunks(case, X, sizes):
@@ -123,38 +183,95 @@ def _chunks(case, X, sizes):
     return out
 
 
-def _n_eff(fs, n):
-    return int(round(fs * (n / fs)))
+def _rms_args(case):
+    fs = _fs_obj(case)
+    return fs, (case['p']['n'] + case['p'].get('off', 0)) / case['fs']
+
+
+def _rms_n(case):
+    fs, duration = _rms_args(case)
+    return int(round(fs * duration))               # the code's own expression
+
+
+def _ath_args(case):
+    p = case['p']
+    fsarg = {'auto': 'auto', 'none': None, 'value': _fs_obj(case)}[p['fsarg']]
+    nsd = np.float64(p['nsd']) if p.get('nsdk') == 'np' else p['nsd']
+    return nsd, (p['B'] + p.get('off', 0)) / case['fs'], fsarg
+
+
+def _ath_B(case):
+    nsd, baseline, fsarg = _ath_args(case)
+    fs = _fs_obj(case) if fsarg in (None, 'auto') else fsarg     # data.fs is the object the chunks carry
+    return int(np.round(baseline * fs))            # the code's own expression
+
+
+def _iir_args(case):
+    p, fs = case['p'], _fs_obj(case)
+    btype, ftype = p.get('btype', 'lowpass'), p.get('ftype', 'butter')
+    Wn = (case['fs'] / 10, case['fs'] / 4) if btype in ('bandpass', 'bandstop') else case['fs'] / 5
+    rp = 1 if ftype in ('cheby1', 'ellip') else None
+    rs = 40 if ftype in ('cheby2', 'ellip') else None
+    return fs, p['order'], Wn, rp, rs, btype, ftype
+
+
+def _init_obj(case):
+    i = case['p']['init']
+    return np.float64(i) if _v(case, 'pk') == 'np' else i
+
+
+def _matrix(case):
+    m, k = case['p']['matrix'], case['p'].get('mk', 'f8')
+    return m if k == 'list' else np.array(m, dtype=k)
 
 
 def _make(case, target, cb=None):
     from psiaudio import pipeline as P
     st, p = case['stage'], case['p']
     if st == 'blocked':
-        return P.blocked(p['bs'], target)
+        return P.blocked(_num(case, p['bs']), target)
     if st == 'discard':
-        return P.discard(p['d'], target)
+        return P.discard(_num(case, p['d']), target)
     if st == 'downsample':
-        return P.downsample(p['q'], target)
+        return P.downsample(_num(case, p['q']), target)
     if st == 'decimate':
-        return P.decimate(p['q'], target)
+        return P.decimate(_num(case, p['q']), target)
     if st == 'rms':
-        return P.rms(case['fs'], p['n'] / case['fs'], target)
+        fs, duration = _rms_args(case)
+        return P.rms(fs, duration, target)
     if st == 'derivative':
-        return P.derivative(p['init'], target)
+        return P.derivative(_init_obj(case), target)
     if st == 'iirfilter':
-        return P.iirfilter(case['fs'], p['order'], case['fs'] / 5, None, None, 'lowpass', 'butter', target)
+        return P.iirfilter(*_iir_args(case), target)
     if st == 'transform':
         return P.transform(_FUNCS[p['fn']], target)
     if st == 'mc_reference':
-        return P.mc_reference(np.array(p['matrix'], dtype=float), target)
+        return P.mc_reference(_matrix(case), target)
     if st == 'auto_th':
-        fsarg = {'auto': 'auto', 'none': None, 'value': case['fs']}[p['fsarg']]
-        return P.auto_th(p['nsd'], p['B'] / case['fs'], target, fs=fsarg, mode=p['mode'], auto_th_cb=cb)
+        nsd, baseline, fsarg = _ath_args(case)
+        kw = {}
+        if p.get('cur') is not None:
+            kw['current_th_cb'] = lambda c=float(p['cur']): c
+        if _v(case, 'cb') != 'none':
+            kw['auto_th_cb'] = cb
+        if _v(case, 'cb') == 'positional':      # every keyword given positionally
+            return P.auto_th(nsd, baseline, target, fsarg, p['mode'], cb, kw.get('current_th_cb'))
+        return P.auto_th(nsd, baseline, target, fs=fsarg, mode=p['mode'], **kw)
     raise KeyError(st)
 
 
-_FUNCS = {'affine': lambda d: d * 2 + 1, 'neg': lambda d: -d, 'sqrt': lambda d: np.sqrt(d)}
+class _Sqrt:
+    """a callable object (not a function)"""
+    def __call__(self, d):
+        return np.sqrt(d)
+
+    def method(self, d):
+        return d * 4 - 3
+
+
+_FUNCS = {'affine': lambda d: d * 2 + 1, 'neg': lambda d: -d, 'sqrt': lambda d: np.sqrt(d),
+          'ufunc': np.negative, 'partial': functools.partial(np.multiply, 3.0), 'object': _Sqrt(),
+          'method': _Sqrt().method}
 
 
 def _reference(case, X):
@@ -170,39 +287,37 @@ def _reference(case, X):
         zi = signal.lfilter_zi(b, a)
         return signal.lfilter(b, a, X2, zi=zi[np.newaxis] * np.ones((X2.shape[0], 1)), axis=-1)[0]
     if st == 'iirfilter':
-        b, a = signal.iirfilter(p['order'], case['fs'] / 5, None, None, 'lowpass', ftype='butter', fs=case['fs'])
+        fs, order, Wn, rp, rs, btype, ftype = _iir_args(case)
+        b, a = signal.iirfilter(order, Wn, rp, rs, btype, ftype=ftype, fs=fs)
         zi = signal.lfilter_zi(b, a)
         return signal.lfilter(b, a, X2, zi=zi * X2[..., :1], axis=-1)[0]
     if st == 'rms':
-        n = _n_eff(case['fs'], p['n'])
+        n = _rms_n(case)
         nb = N // n
         d = X2[..., :nb * n].reshape(X2.shape[0], nb, n)
         return np.mean(d ** 2, axis=-1) ** 0.5
     if st == 'derivative':
-        pad = np.full((X2.shape[0], 1), float(p['init']))
-        return np.diff(np.concatenate([pad, X2], axis=-1)) * case['fs']
+        pad = np.full((X2.shape[0], 1), fill_value=_init_obj(case))
+        return np.diff(np.concatenate([pad, X2], axis=-1)) * _fs_obj(case)
     if st == 'transform':
         return _FUNCS[p['fn']](X2)
     if st == 'mc_reference':
-        return np.array(p['matrix'], dtype=float) @ X2
+        return _matrix(case) @ X2
     if st == 'auto_th':
-        B = _n_eff_round(case['fs'], p['B'])
+        B = _ath_B(case)
         if N < B:
             return np.zeros((X2.shape[0], 0))
-        th = X[..., :B].std() * p['nsd']
+        th = X[..., :B].std() * _ath_args(case)[0]
+        if p.get('cur') is not None:
+            th = float(p['cur'])                   # current_th_cb overrides the automatic threshold
         m = p['mode']
         r = (X2 >= th) if m == 'positive' else (X2 <= -th) if m == 'negative' else ((X2 >= th) | (X2 <= -th))
         return r.astype(float)
     raise KeyError(st)
 
 
-def _n_eff_round(fs, B):
-    return int(np.round((B / fs) * fs))
-
-
 def _ref_threshold(case, X):
-    B = _n_eff_round(case['fs'], case['p']['B'])
-    return float(X[..., :B].std() * case['p']['nsd'])
+    return float(X[..., :_ath_B(case)].std() * _ath_args(case)[0])
 
 
 def _lookups(case, ref):
@@ -239,18 +354,37 @@ def _s0(v):
     return int(f) if f == int(f) else -99999
 
 
-def _md(md):
+def _same(a, b):
+    """equal AND of the same type, recursively (0, 0.0, False and '' are different labels)"""
+    if type(a) is not type(b):
+        return False
+    if isinstance(a, (list, tuple)):
+        return len(a) == len(b) and all(_same(x, y) for x, y in zip(a, b))
+    if isinstance(a, dict):
+        return list(a.keys()) == list(b.keys()) and all(_same(a[k], b[k]) for k in a)
+    return a == b
+
+
+def _md(md, case):
     if isinstance(md, dict):
         md = {k: v for k, v in md.items() if k != 'auto_th'}
-    return 7 if md == MD else 0 if md == {} else -1
+    return 7 if _same(md, _in_md(case)) else 0 if md == {} else -1
 
 
-def _ch(ch):
+def _ch(ch, case):
+    """labels -> ids: position (from 1) of the identical label among the input's labels; a None that is not an
+    input label -> 0; anything else -> 99; a scalar (1-D) label identical to the input's -> [50]"""
+    inp = _eff_channel(case)
     if ch is None:
         return None
     if isinstance(ch, list):
-        return [LABELS.get(c, 99) if (c is None or isinstance(c, str)) else 99 for c in ch]
-    return [98]
+        labs = inp if isinstance(inp, list) else []
+        out = []
+        for c in ch:
+            j = next((j for j, x in enumerate(labs) if _same(c, x)), None)
+            out.append(j + 1 if j is not None else 0 if c is None else 99)
+        return out
+    return [50] if (inp is not None and not isinstance(inp, list) and _same(ch, inp)) else [98]
 
 
 def _encode(case, o, lookups):
@@ -267,16 +401,36 @@ def _encode(case, o, lookups):
         rows = [[lookups[r].get(float(v), BAD) for v in row] for r, row in enumerate(a2)]
     ann = None
     if isinstance(o, PipelineData):
-        ann = [_s0(o.s0), _fsd(case['fs'], o.fs), _ch(o.channel), _md(o.metadata)]
+        ann = [_s0(o.s0), _fsd(case['fs'], o.fs), _ch(o.channel, case), _md(o.metadata, case)]
     return {'rows': rows, 'two': bool(two), 'ann': ann, 'n': int(a2.shape[-1])}
 
 
-def _drive(case, chunks, cb=None):
+def _drive(case, chunks, cb=None, prefix=None):
+    """send the chunks; v.clobber: the target keeps a copy and then OVERWRITES the array it was given (a downstream
+    stage working in place must not disturb later output); prefix: chunks of another stream, then the Ellipsis
+    reset message, are sent first - returns only what is emitted after the forwarded Ellipsis plus the count of
+    Ellipsis objects seen"""
     outs = []
-    cr = _make(case, outs.append, cb)
+
+    def target(o):
+        if o is Ellipsis or not _v(case, 'clobber') or not isinstance(o, np.ndarray):
+            outs.append(o)
+            return
+        outs.append(o.copy())
+        if o.flags.writeable and o.size:
+            o[...] = True if o.dtype == bool else -77
+    cr = _make(case, target, cb)
+    for c in (prefix or []):
+        cr.send(c)
+    if prefix is not None:
+        cr.send(Ellipsis)
     for c in chunks:
         cr.send(c)
-    return outs
+    n_reset = sum(1 for o in outs if o is Ellipsis)
+    if prefix is not None and n_reset:
+        k = max(i for i, o in enumerate(outs) if o is Ellipsis)
+        outs = outs[k + 1:]
+    return [o for o in outs if o is not Ellipsis], n_reset
 
 
 def _impl_array(case):
@@ -286,9 +440,14 @@ def _impl_array(case):
     lookups = _lookups(case, ref)
     ths, ths1 = [], []
     allowed = None
+    prefix = None
+    if _v(case, 'reset') is not None:
+        # an unrelated stream (values the lookups do not know), then Ellipsis, then the stream under test
+        pre = dict(case, sizes=_v(case, 'reset'), s0=case['s0'] + 100000)
+        prefix = _chunks(pre, _gen(pre, 1) + 20000, pre['sizes'])
     try:
-        outs = _drive(case, _chunks(case, X, case['sizes']), ths.append)
-        one = _drive(case, _chunks(case, X, [X.shape[-1]]), ths1.append)
+        outs, n_reset = _drive(case, _chunks(case, X, case['sizes']), ths.append, prefix)
+        one, _ = _drive(case, _chunks(case, X, [X.shape[-1]]), ths1.append)
     except AttributeError as e:
         if case['stage'] == 'derivative' and not case['ann']:
             return {'raised_allowed': 'AttributeError'}      # plain arrays have no .fs (documented scope)
@@ -300,6 +459,13 @@ def _impl_array(case):
         raise
     res = {'outs': [_encode(case, o, lookups) for o in outs],
            'one': [_encode(case, o, lookups) for o in one]}
+    if prefix is not None:
+        res['n_reset'] = n_reset
+    # the dtype of what is emitted is the dtype of the one-shot whole-signal computation (bool for auto_th)
+    want_dt = np.dtype(bool) if case['stage'] == 'auto_th' else ref.dtype
+    bad_dt = sorted({str(np.asarray(o).dtype) for o in outs + one if np.asarray(o).dtype != want_dt})
+    if bad_dt:
+        res['dtype'] = f'{bad_dt} instead of {want_dt}'
     if case['ann'] and outs:
         try:
             c = P.concat(outs, axis=-1)
@@ -309,8 +475,8 @@ def _impl_array(case):
             res['concat'] = 'ValueError: ' + str(e)[:200]
     if case['stage'] == 'auto_th':
         N = X.shape[-1]
-        B = _n_eff_round(case['fs'], case['p']['B'])
-        want = [_ref_threshold(case, X)] if N >= B else []
+        B = _ath_B(case)
+        want = [_ref_threshold(case, X)] if (N >= B and _v(case, 'cb') != 'none') else []
         res['th_ok'] = bool(ths == want and ths1 == want)
         res['table'] = [[int(v) for v in row] for row in ref] if N >= B else [[] for _ in ref]
         th_objs = {id(o.metadata.get('auto_th')) for o in outs if isinstance(o, P.PipelineData)}
@@ -319,38 +485,62 @@ def _impl_array(case):
 
 
 # ------------------------------------------------------------------ event_rate
+def _er_args(case):
+    """block_size, block_step, Events fs as the objects handed to the code (int / float / NumPy scalar)"""
+    p = case['p']
+    k = _v(case, 'bk', 'int')
+    conv = {'int': lambda x: x, 'float': float, 'np': np.int64, 'npf': np.float64}[k]
+    bsz = conv(p['bsz'])
+    stp = conv(p['stp']) if p.get('den', 1) == 1 else p['stp'] / p['den']       # documented: block_step may be a float
+    fs = int(case['fs']) if _v(case, 'fsk') == 'int' else case['fs']
+    return bsz, stp, fs
+
+
 def _events(case):
     from psiaudio.pipeline import Events
     lo = case['lo']
+    fs = _er_args(case)[2]
     out = []
     for n in case['sizes']:
         ev = [('rising', e) for e in case['events'] if lo <= e < lo + n]
-        out.append(Events(ev, lo, lo + n, case['fs']))
+        if _v(case, 'evk') == 'np':
+            ev = [(k, np.int64(e)) for k, e in ev]
+        out.append(Events(ev, lo, lo + n, fs))
         lo += n
     return out
 
 
 def _enc_rate(case, o):
-    bsz, stp, fs = case['p']['bsz'], case['p']['stp'], case['fs']
+    bsz, stp, fs = _er_args(case)
     a = np.asarray(o)
     counts = []
     for v in a.reshape(-1):
-        c = int(round(float(v) * bsz / fs))
+        c = int(round(float(v) * float(bsz) / fs))
         counts.append(c if c / bsz * fs == float(v) else -1)
     s2 = 2 * float(o.s0)
     return {'counts': counts, 's0x2': int(s2) if s2 == int(s2) else -99999,
-            'fsd': stp if fs / stp == o.fs else -1, 'shape_ok': a.ndim == 2 and a.shape[0] == 1,
-            'ch': _ch(o.channel), 'md': _md(o.metadata)}
+            'fsd': case['p']['stp'] if fs / stp == o.fs else -1, 'shape_ok': a.ndim == 2 and a.shape[0] == 1,
+            'ann_ok': o.channel == [None] and o.metadata == {}}
 
 
 def _impl_events(case):
     from psiaudio import pipeline as P
-    import copy
-    p = case['p']
 
     def drive(chs):
         outs = []
-        cr = P.event_rate(p['bsz'], p['stp'], outs.append)
+
+        def target(o):
+            outs.append(o.copy() if _v(case, 'clobber') else o)
+            if _v(case, 'clobber'):
+                o[...] = -77
+        bsz, stp, _ = _er_args(case)
+        mode = _v(case, 'mode')
+        if mode is None:
+            cr = P.event_rate(bsz, stp, target)
+        elif _v(case, 'positional'):
+            cr = P.event_rate(bsz, stp, target, mode)
+        else:
+            cr = P.event_rate(block_size=bsz, block_step=stp, target=target, s0_mode=mode)
         for c in chs:
             cr.send(c)
         return outs
@@ -377,7 +567,8 @@ def _hdr(case):
     two = 'true' if case['two'] else 'false'
     if not case['ann']:
         return f'(Hdr {two} None)'
-    ch = 'Some [1; 2]' if case['two'] else 'None'
+    ids = _ch(_eff_channel(case), case)
+    ch = 'None' if ids is None else f'Some {zlist(ids)}'
     return f'(Hdr {two} (Some (1, {ch}, 7)))'
 
 
@@ -406,10 +597,16 @@ def term(case, res):
     # validate the `_unrepaired` model functions against the tree before the fix-C12 commits)
     rep = 'false' if os.environ.get('C12_MODEL_UNREPAIRED') else 'true'
     if st == 'event_rate':
+        den = p.get('den', 1)          # block_step = stp / den; the model runs on positions multiplied by den
         cs, lo = [], case['lo']
         for n in case['sizes']:
-            cs.append(f'Ev {zlist([e for e in case["events"] if lo <= e < lo + n])} {zlit(lo)} {zlit(lo + n)}')
+            cs.append(f'Ev {zlist([den * e for e in case["events"] if lo <= e < lo + n])} {zlit(den * lo)} {zlit(den * (lo + n))}')
             lo += n
+        if den != 1:
+            # fractional block_step: window arithmetic compared on the scaled integers (counts per emitted block);
+            # s0 / fs of the blocks are judged by the oracle only
+            got = listlit([zlist(o['counts']) for o in res['outs']])
+            return f'check_event_rate_counts {rep} {zlit(den * p["bsz"])} {zlit(p["stp"])} {listlit(cs)} (Some {got})'
         got = listlit([f'Rb {zlist(o["counts"])} {zlit(o["s0x2"])} {zlit(o["fsd"])}' for o in res['outs']])
         return f'check_event_rate {rep} {zlit(p["bsz"])} {zlit(p["stp"])} {listlit(cs)} (Some {got})'
     h, s0, sizes = _hdr(case), zlit(case['s0'] if case['ann'] else 0), zlist(case['sizes'])
@@ -426,7 +623,7 @@ def term(case, res):
         elif st == 'decimate':
             t = f'check_decimate {rep} {zlit(p["q"])} {h} {s0} {sizes} {got}'
         elif st == 'rms':
-            t = f'check_rms {rep} {zlit(_n_eff(case["fs"], p["n"]))} {h} {s0} {sizes} {got}'
+            t = f'check_rms {rep} {zlit(_rms_n(case))} {h} {s0} {sizes} {got}'
         elif st == 'derivative':
             t = f'check_derivative {h} {s0} {sizes} {got}'
         elif st == 'iirfilter':
@@ -434,7 +631,7 @@ def term(case, res):
         elif st in ('transform', 'mc_reference'):
             t = f'check_map {h} {s0} {sizes} {got}'
         elif st == 'auto_th':
-            t = f'check_autoth {zlit(_n_eff_round(case["fs"], p["B"]))} {zlist(res["table"][r])} {h} {s0} {sizes} {got}'
+            t = f'check_autoth {zlit(_ath_B(case))} {zlist(res["table"][r])} {h} {s0} {sizes} {got}'
         else:
             raise KeyError(st)
         if t not in ts:
@@ -459,14 +656,14 @@ def _want_ids(case):
     if st in ('downsample', 'decimate'):
         return list(range(0, p['q'] * (N // p['q']), p['q']))
     if st == 'rms':
-        return list(range(N // _n_eff(case['fs'], p['n'])))
+        return list(range(N // _rms_n(case)))
     return list(range(N))
 
 
 def _out_fsd(case):
     st, p = case['stage'], case['p']
     return {'downsample': p.get('q'), 'decimate': p.get('q'),
-            'rms': _n_eff(case['fs'], p['n']) if st == 'rms' else None}.get(st) or 1
+            'rms': _rms_n(case) if st == 'rms' else None}.get(st) or 1
 
 
 def _cat(outs, r):
@@ -483,7 +680,9 @@ def oracle(case, res):
     if st == 'event_rate':
         return _oracle_events(case, res)
     N = sum(case['sizes'])
-    nrows = 1 if (st == 'mc_reference' or not case['two']) else 2
+    if res.get('n_reset', 1) != 1:
+        return f'{st}{p}: the Ellipsis reset message was forwarded {res["n_reset"]} times instead of once'
+    nrows = 1 if (st == 'mc_reference' or not case['two']) else _rows(case)
     for r in range(nrows):
         got = _cat(outs, r) if outs else []
         if st == 'auto_th':
@@ -496,6 +695,8 @@ def oracle(case, res):
                     f'(row {r}; {len(got)} samples emitted, {len(want)} expected; chunking {case["sizes"][:12]})')
         if got != (_cat(one, r) if one else []):
             return f'{st}{p}: chunking {case["sizes"][:12]} and the single chunk [{N}] give different concatenated output'
+    if 'dtype' in res:
+        return f'{st}{p}: emitted dtype {res["dtype"]} (input dtype {_v(case, "dtype", "f8")})'
     if st == 'blocked' and any(o['n'] != p['bs'] for o in outs):
         return f'blocked{p}: emitted block lengths {[o["n"] for o in outs][:8]}'
     if st == 'auto_th' and not (res['th_ok'] and res['th_meta_ok']):
@@ -506,7 +707,7 @@ def oracle(case, res):
         return None
     # annotated input: contiguity, rate, labels, metadata
     fsd = _out_fsd(case)
-    ch = [1, 2] if (case['two']) else None
+    ch = _ch(_eff_channel(case), case)
     for k, o in enumerate(outs):
         if o['ann'] is None:
             return f'{st}{p}: output block {k} lost its annotations'
@@ -530,10 +731,12 @@ def oracle(case, res):
 def _er_spec(case):
     p = case['p']
     lo, hi = case['lo'], case['lo'] + sum(case['sizes'])
-    out, s = [], lo
+    out, s, step = [], lo, p['stp'] / p.get('den', 1)
+    if p.get('den', 1) == 1:
+        step = p['stp']
     while hi - s > p['bsz']:
         out.append(sum(1 for e in case['events'] if s <= e < s + p['bsz']))
-        s += p['stp']
+        s += step
     return out
 
 
@@ -548,13 +751,15 @@ def _oracle_events(case, res):
     if got != [c for o in one for c in o['counts']]:
         return f'event_rate{p}: chunking {case["sizes"][:12]} and a single chunk give different output'
     for k, o in enumerate(outs):
-        if o['fsd'] != p['stp'] or not o['shape_ok']:
-            return f'event_rate{p}: block {k} has the wrong rate or shape'
+        if o['fsd'] != p['stp'] or not o['shape_ok'] or not o['ann_ok']:
+            return f'event_rate{p}: block {k} has the wrong rate, shape or annotations'
         if k + 1 < len(outs) and outs[k + 1]['s0x2'] != o['s0x2'] + 2 * len(o['counts']):
             return f'event_rate{p}: block {k + 1} does not start where block {k} ended'
     if outs and res.get('concat') != 'ok':
         return f'event_rate{p}: pipeline.concat of the consecutive outputs fails: {res.get("concat")}'
-    if outs and outs[0]['s0x2'] != 2 * case['lo'] + p['bsz']:
+    # s0_mode is accepted but ignored by the code (always the centre): the first s0 is judged for 'center' only;
+    # the property text fixes contiguity and rate, not the origin
+    if outs and _v(case, 'mode') in (None, 'center') and outs[0]['s0x2'] != 2 * case['lo'] + p['bsz']:
         return f'event_rate{p}: first s0 is not the centre of the first window'
     return None
 
@@ -721,6 +926,94 @@ def _er_case(rng, sizes, bsz, stp, lo=None):
             'sizes': list(sizes), 'events': events}
 
 
+_MATRICES = {1: [[[2]], [[-1]]],
+             2: [[[1, -1], [0, 1]], [[2, 1], [1, 1]], [[0, 1], [1, 0]], [[1, 0], [0, 1]]],
+             3: [[[1, -1, 0], [0, 1, -1], [0, 0, 1]], [[2, -1, -1], [-1, 2, -1], [1, 1, 1]]]}
+EMPTY_FILTER_KEY = 'filters:zero-length-chunk-corrupts-filter-state'
+
+
+def _empty_filter_chunks_enabled():
+    """iirfilter / decimate hand a zero-length chunk to scipy.signal.lfilter, whose returned final state is then
+    garbage (finding reported to the coordinator).  Those cases are generated when the finding is listed in
+    known_findings.txt (then reported as KNOWN-FINDING on every run) or when C12_EMPTY_FILTER_CHUNKS=1."""
+    if os.environ.get('C12_EMPTY_FILTER_CHUNKS'):
+        return True
+    try:
+        import vlib
+        return any(k['property'] == PROP and k['key'] == EMPTY_FILTER_KEY for k in vlib.load_known()[0])
+    except Exception:
+        return False
+
+
+def _with_zeros(rng, sizes):
+    """insert zero-length chunks: in front, in the middle (also two in a row), at the end"""
+    out = list(sizes)
+    for _ in range(rng.randint(1, 3)):
+        out.insert(rng.randint(0, len(out)), 0)
+    if rng.random() < 0.3:
+        out = [0] + out
+    if rng.random() < 0.3:
+        out = out + [0]
+    return out
+
+
+def _variant_cases(stage, rng, reps):
+    """unusual-but-legal argument kinds (see the audit table in the report): dtypes, NumPy / int / float scalars for
+    every numeric argument, off-grid seconds arguments (incl. exact .5 ties of round), read-only chunks, zero-length
+    chunks, 1 / 2 / 3 channels, falsy / mixed-type / tuple labels, empty / nested / falsy metadata, every keyword of
+    auto_th / iirfilter, callable kinds of transform, matrix kinds of mc_reference, a target that overwrites what it
+    received, the Ellipsis reset message of blocked / discard"""
+    empties_ok = stage not in ('iirfilter', 'decimate') or _empty_filter_chunks_enabled()
+    for _ in range(reps):
+        N = rng.choice([rng.randint(1, 12), rng.randint(1, 40), rng.randint(1, 150)])
+        p = _params(stage, rng, N, False)
+        two, ann = rng.random() < 0.5, rng.random() < 0.7
+        if stage == 'derivative':
+            ann = True
+        v = {'dtype': rng.choice(['f8', 'i8', 'i4', 'f4', 'i2' if N < 30 and stage not in ('rms', 'derivative') else 'i8']),
+             'pk': rng.choice(['int', 'np', 'np32']), 'fsk': rng.choice(['float', 'int', 'np']),
+             's0k': rng.choice(['int', 'np']), 'ro': rng.random() < 0.4, 'clobber': rng.random() < 0.4,
+             'lab': rng.randint(0, 3), 'md': rng.randint(0, 3), 'nch': rng.choice([1, 2, 3])}
+        sizes = _rand_sizes(rng, N, 6)
+        if empties_ok and rng.random() < 0.4:
+            sizes = _with_zeros(rng, sizes)
+        if stage == 'rms':
+            p['off'] = rng.choice([0, 0.3, -0.4, 0.5, -0.5, 0.49])
+        if stage == 'derivative':
+            p['init'] = rng.choice([0, 3, -1, 2.5, 0.0])
+        if stage == 'iirfilter':
+            p['btype'] = rng.choice(['lowpass', 'highpass', 'bandpass'])
+            p['ftype'] = rng.choice(['butter', 'cheby1', 'ellip', 'bessel'])
+        if stage == 'transform':
+            p['fn'] = rng.choice(sorted(_FUNCS))
+        if stage == 'mc_reference':
+            two = True
+            p['matrix'] = rng.choice(_MATRICES[v['nch']])
+            p['mk'] = rng.choice(['f8', 'i8', 'list', 'f4'])
+        if stage == 'auto_th':
+            p['off'] = rng.choice([0, 0.3, -0.4, 0.5, -0.5])
+            p['nsd'] = rng.choice([1, 2, 1.5, 0.5, 3])
+            p['nsdk'] = rng.choice(['py', 'np'])
+            p['cur'] = rng.choice([None, None, 3.5, 0.25, -2.5])
+            v['cb'] = rng.choice(['list', 'none', 'positional'])
+        if stage in ('blocked', 'discard') and rng.random() < 0.5:
+            v['reset'] = _rand_sizes(rng, rng.randint(1, 12), 4)
+        c = _case(stage, p, two, ann, sizes, rng)
+        c['v'] = v
+        if stage == 'auto_th':
+            c['p']['fsarg'] = rng.choice(['auto', 'none', 'value']) if ann else 'value'
+            if _ath_B(c) < 2 or (c['p']['cur'] is not None and v['cb'] == 'positional' and False):
+                c['p']['off'] = 0
+        if stage == 'rms':
+            n = _rms_n(c)
+            if n < 1:
+                c['p']['off'] = 0
+                n = _rms_n(c)
+            if ann:
+                c['s0'] = (c['s0'] // max(1, c['p']['n'])) * n        # rms: the block length divides the first s0
+        yield c
+
+
 def cases(tier, rng):
     quick = tier == 'quick'
     n_small, n_big = (7, 10) if quick else (9, 12)
@@ -748,6 +1041,7 @@ def cases(tier, rng):
             for k, sizes in enumerate(compositions(n_big)):
                 yield _case(stage, p, False, True, sizes, rng, s0=[-1, -2, 0, -4, 60, -3][k % 6] * per)
         yield from _aligned_cases(stage, rng, (2 if stateless else 8) if quick else (10 if stateless else 120))
+        yield from _variant_cases(stage, rng, (60 if stateless else 90) if quick else (400 if stateless else 1500))
         for _ in range((20 if stateless else 120) if quick else (200 if stateless else 3000)):
             N = rng.choice([rng.randint(1, 30), rng.randint(1, 120), rng.randint(1, 400)])
             p = _params(stage, rng, N, False)
@@ -763,6 +1057,19 @@ def cases(tier, rng):
         N = rng.choice([rng.randint(1, 40), rng.randint(1, 300)])
         yield _er_case(rng, _rand_sizes(rng, N, 8), rng.choice([1, 2, 3, 5, rng.randint(1, 40)]),
                        rng.choice([1, 2, 3, 5, rng.randint(1, 40)]))
+    # argument kinds: int / float / NumPy block_size and block_step, FRACTIONAL block_step (documented as float),
+    # s0_mode values (keyword and positional), integer Events fs, NumPy event positions, a clobbering target
+    for _ in range(120 if quick else 2000):
+        N = rng.choice([rng.randint(1, 30), rng.randint(1, 150)])
+        c = _er_case(rng, _rand_sizes(rng, N, 8), rng.choice([1, 2, 3, 4, 5, rng.randint(1, 30)]),
+                     rng.choice([1, 2, 3, 5, rng.randint(1, 30)]))
+        c['v'] = {'bk': rng.choice(['int', 'float', 'np', 'npf']), 'mode': rng.choice([None, 'center', 'left', 'right']),
+                  'positional': rng.random() < 0.5, 'fsk': rng.choice(['float', 'int']),
+                  'evk': rng.choice(['int', 'np']), 'clobber': rng.random() < 0.4}
+        if rng.random() < 0.35:
+            c['p']['den'] = 2
+            c['p']['stp'] = 2 * rng.randint(0, 12) + 1          # block_step = 0.5, 1.5, 2.5, ...
+        yield c
 
 
 def distribution(cases_, results):
